@@ -1818,6 +1818,85 @@ func (g *gen) groupProgZ(n int) {
 	}
 }
 
+
+// ---- exhaustive small scope ---------------------------------------------------------------------
+// every text over a five-atom alphabet (a letter, a blank, a two-code-point cluster, the line
+// separator, a tab) up to a length bound, under every small width: the corners random generation
+// reaches only by luck (blank-only lines, lines that end in blanks, separators at both ends, a word
+// exactly as long as the width, width 0 and negative) are all in here, and all of them every run.
+var smallAtoms = []string{"a", " ", "e\u0301", "\n", "\t"}
+
+func (g *gen) smallTexts(maxLen int) []string {
+	out := []string{""}
+	prev := []string{""}
+	for l := 1; l <= maxLen; l++ {
+		var cur []string
+		for _, p := range prev {
+			for _, a := range smallAtoms {
+				cur = append(cur, p+a)
+			}
+		}
+		out = append(out, cur...)
+		prev = cur
+	}
+	return out
+}
+
+func (g *gen) groupSmall(which string) {
+	g.noSib = true
+	maxLen := 4
+	if which != "wrap" {
+		maxLen = 3
+	}
+	if g.tier == "thorough" {
+		maxLen += 2
+	}
+	flagSets := []int{0, 2} // default, PreserveParagraphs
+	for _, t := range g.smallTexts(maxLen) {
+		for _, fl := range flagSets {
+			o := fmt.Sprintf("-:-:-:-:%d", fl)
+			ed := "edit," + encText(t) + ",-:-:-:-:0"
+			switch which {
+			case "wrap":
+				for w := -1; w <= maxLen+2; w++ {
+					g.emit("prog", ed+";"+fmt.Sprintf("wrap,0,%d,%s", w, o))
+				}
+			case "justify":
+				for w := 0; w <= maxLen+4; w++ {
+					g.emit("prog", ed+";"+fmt.Sprintf("justify,0,%d,%s", w, o))
+					g.emit("prog", ed+";"+fmt.Sprintf("justify,0,%d,-:-:-:-:%d", w, fl|4))
+				}
+			case "align":
+				for al := 1; al <= 3; al++ {
+					for w := -1; w <= maxLen+3; w++ {
+						g.emit("prog", ed+";"+fmt.Sprintf("align,0,%d,%d,%s", al, w, o))
+					}
+				}
+			case "misc":
+				g.emit("prog", ed+";collapse,0,"+o)
+				g.emit("prog", ed+";"+fmt.Sprintf("indent,0,1,%s", o))
+				g.emit("prog", ed+";"+fmt.Sprintf("apply,0,0,%s", o))
+				g.emit("prog", ed+";linecount,0;charcount,0")
+				if fl == 0 {
+					n := clusterCount(t)
+					for a := -1; a <= n+1; a++ {
+						g.emit("prog", ed+";"+fmt.Sprintf("insert,0,%d,%s", a, encText("X")))
+						for b := a; b <= n+1; b++ {
+							g.emit("prog", ed+";"+fmt.Sprintf("chars,0,%d,%d;insert,1,0,%s;string,2", a, b, encText("X")))
+							g.emit("prog", ed+";"+fmt.Sprintf("delete,0,%d,%d", a, b))
+						}
+					}
+					for a := 0; a <= 3; a++ {
+						for b := a; b <= 4; b++ {
+							g.emit("prog", ed+";"+fmt.Sprintf("lines,0,%d,%d;insert,1,0,%s;string,2", a, b, encText("X")))
+						}
+					}
+				}
+			}
+		}
+	}
+}
+
 func cmdGen(group, tier string, seed int64) int {
 	g := &gen{r: rand.New(rand.NewSource(seed)), out: bufio.NewWriterSize(os.Stdout, 1<<20), tier: tier, pfx: group + "-"}
 	defer g.out.Flush()
@@ -1842,6 +1921,14 @@ func cmdGen(group, tier string, seed int64) int {
 		g.noSib = true
 	}
 	switch group {
+	case "X-wrap":
+		g.groupSmall("wrap")
+	case "X-justify":
+		g.groupSmall("justify")
+	case "X-align":
+		g.groupSmall("align")
+	case "X-misc":
+		g.groupSmall("misc")
 	case "G-class":
 		g.groupClass()
 	case "G-split":
